@@ -703,3 +703,211 @@ def m_split_at(px, st, fr, ev):
 def m_first(px, st, fr, ev):
     seq = seq_of(px, st, ev["args"][0])
     return val(("first", seq))
+
+
+# ------------------------------------------------------------------ formatting
+
+def decode_template(s):
+    """new format_args! lowering: length-prefixed literal pieces, 0xC0 per plain placeholder, 0x00 terminator.
+    -> list of ("lit", text) / ("arg", index) / ("opaque", byte)"""
+    b = [ord(ch) for ch in s]
+    out = []
+    i = 0
+    argi = 0
+    while i < len(b):
+        x = b[i]
+        if x == 0:
+            break
+        if x < 0x80:
+            out.append(("lit", "".join(chr(c) for c in b[i + 1:i + 1 + x])))
+            i += 1 + x
+        elif x == 0xC0:
+            out.append(("arg", argi))
+            argi += 1
+            i += 1
+        else:
+            out.append(("opaque", x))
+            argi += 1
+            i += 1
+    return out
+
+
+@model("core::fmt::rt::Argument::<'_>::new_display", "core::fmt::rt::Argument::<'_>::new_lower_hex",
+       "core::fmt::rt::Argument::<'_>::new_debug", "core::fmt::rt::Argument::<'_>::new_upper_hex",
+       reason="format argument = (trait, static type, value)")
+def m_fmtarg(px, st, fr, ev):
+    tr = ev["callee"]["path"].split("::")[-1][4:]
+    targs = ev["callee"].get("targs") or []
+    ty = targs[0]["s"] if targs else "?"
+    v = deref_val(px, st, ev["args"][0], depth=2)
+    return val(("fmtarg", tr, ty, v))
+
+
+@model("std::fmt::Arguments::<'a>::new", "std::fmt::Arguments::<'a>::new_const", "std::fmt::Arguments::<'a>::from_str",
+       reason="format_args!: decoded template + argument list")
+def m_fmtargs(px, st, fr, ev):
+    tpl = deref_val(px, st, ev["args"][0])
+    args = deref_val(px, st, ev["args"][1]) if len(ev["args"]) > 1 else agg("array", None, None, ())
+    items = tuple(v for _, v in args[4]) if is_agg(args) else (("unknown_args", args),)
+    return val(("fmtargs", tpl[1] if isinstance(tpl, tuple) and tpl[0] in ("bytes", "str") else tpl, items))
+
+
+def append_to(px, st, ref, piece, fr=None, via="append"):
+    old = px._read(st, ref[1], ref[2])
+    new = ("appended", old, piece)
+
+    def do(s):
+        px._write(s, ref[1], ref[2], new)
+        px.emit(s, {"k": "write", "fn": fr.info.name if fr else "?", "bb": fr.bb if fr else -1, "root": ref[1], "path": ref[2], "value": new, "via": via})
+    return do
+
+
+@model("std::fmt::Write::write_fmt", "std::io::Write::write_fmt",
+       reason="write!(buf, ..) appends the formatted text to a growable buffer (BytesMut / Vec<u8>): modelled as append + Ok "
+              "when the receiver is such a buffer, else uninterpreted")
+def m_write_fmt(px, st, fr, ev):
+    a = ev["args"][0]
+    res = ev["callee"].get("res_full") or ""
+    recv_ty = ev["argops"][0].get("place", {}).get("ty", {}).get("s", "")
+    growable = "BytesMut" in res or "BytesMut" in recv_ty or "Vec<u8>" in recv_ty
+    if a[0] != "ref" or not growable:
+        return None
+    target = a
+    inner = px._read(st, a[1], a[2])
+    if isinstance(inner, tuple) and inner and inner[0] == "ref":
+        target = inner  # &mut &mut Vec<u8>
+    return val(ok(UNIT), do=append_to(px, st, target, ("fmt", ev["args"][1]), fr, "write_fmt"))
+
+
+@model("std::vec::Vec::<T, A>::extend_from_slice", reason="appends the slice to the Vec")
+def m_extend_from_slice(px, st, fr, ev):
+    a = ev["args"][0]
+    if a[0] != "ref":
+        return None
+    piece = seq_of(px, st, ev["args"][1])
+    return val(UNIT, do=append_to(px, st, a, ("slice", piece), fr, "extend_from_slice"))
+
+
+@model("bytes::BytesMut::with_capacity", "std::vec::Vec::<T>::with_capacity", "std::vec::Vec::<T>::new",
+       reason="a fresh empty buffer (capacity is a hint)")
+def m_new_buf(px, st, fr, ev):
+    capn = ev["args"][0] if ev["args"] else const(0)
+    return val(("newbuf", ev["callee"]["path"].split("::")[-2].split("<")[0] if "::" in ev["callee"]["path"] else "buf", capn, ev["uid"]))
+
+
+@model("bytes::BytesMut::freeze", reason="freeze keeps the bytes")
+def m_freeze(px, st, fr, ev):
+    return val(("frozen", ev["args"][0]))
+
+
+@model("http::HeaderValue::from_maybe_shared_unchecked", reason="header value made of exactly the given bytes")
+def m_hv_unchecked(px, st, fr, ev):
+    return val(("hv", ev["args"][0]))
+
+
+@model("http::HeaderValue::from_static", reason="header value made of the literal")
+def m_hv_static(px, st, fr, ev):
+    return val(("hv_static", ev["args"][0]))
+
+
+# ------------------------------------------------------------------ http::Response / Builder
+
+def mk_builder(status, headers, tainted=False):
+    return ("builder", status, headers, tainted)
+
+
+@model("http::Response::<()>::builder", "http::response::Builder::new", reason="empty response builder (default status 200)")
+def m_builder(px, st, fr, ev):
+    return val(mk_builder(None, ()))
+
+
+@model("http::response::Builder::status", reason="sets the status")
+def m_b_status(px, st, fr, ev):
+    b = ev["args"][0]
+    if not (isinstance(b, tuple) and b[0] == "builder"):
+        return None
+    ty = ev["argops"][1].get("place", {}).get("ty", {}).get("s") or ev["argops"][1].get("ty", {}).get("s", "")
+    taint = b[3] or ("StatusCode" not in ty)
+    return val(mk_builder(ev["args"][1], b[2], taint))
+
+
+@model("http::response::Builder::header", reason="appends one header (name, value)")
+def m_b_header(px, st, fr, ev):
+    b = ev["args"][0]
+    if not (isinstance(b, tuple) and b[0] == "builder"):
+        return None
+    tys = []
+    for i in (1, 2):
+        o = ev["argops"][i]
+        tys.append(o.get("place", {}).get("ty", {}).get("s") or o.get("ty", {}).get("s", ""))
+    v = ev["args"][2]
+    from_httpdate = isinstance(v, tuple) and v and v[0] == "call" and v[1].endswith("httpdate::fmt_http_date")
+    taint = b[3] or not ("HeaderName" in tys[0] and ("HeaderValue" in tys[1] or from_httpdate))
+    return val(mk_builder(b[1], b[2] + ((ev["args"][1], ev["args"][2], ev["uid"]),), taint))
+
+
+def mk_response(status, headers, body):
+    return agg("adt", "http::Response", None, (("status", status if status is not None else ("default_status",)),
+                                                 ("headers", ("hdrs", headers)), ("body", body)))
+
+
+@model("http::response::Builder::body",
+       reason="Builder::body is Ok when every status/header argument had an infallible type (StatusCode, HeaderName, HeaderValue, "
+              "or the String produced by httpdate::fmt_http_date, which is visible ASCII); otherwise uninterpreted")
+def m_b_body(px, st, fr, ev):
+    b = ev["args"][0]
+    if not (isinstance(b, tuple) and b[0] == "builder") or b[3]:
+        return None
+    return val(ok(mk_response(b[1], b[2], ev["args"][1])))
+
+
+@model("http::Response::<T>::new", reason="response with default status and no headers")
+def m_resp_new(px, st, fr, ev):
+    return val(mk_response(None, (), ev["args"][0]))
+
+
+@model("http::Response::<T>::headers_mut", reason="borrows the header map of the response")
+def m_headers_mut(px, st, fr, ev):
+    a = ev["args"][0]
+    if a[0] != "ref":
+        return None
+    cur = px._read(st, a[1], a[2])
+    if not (is_agg(cur) and cur[2] == "http::Response"):
+        return None
+    return val(("ref", a[1], a[2] + (("f", "headers"),), True))
+
+
+@model("http::HeaderMap::new", reason="empty header map")
+def m_hm_new(px, st, fr, ev):
+    return val(("hdrs", ()))
+
+
+@model("http::HeaderMap::<T>::append", "http::HeaderMap::<T>::insert", reason="adds (name, value) to the map")
+def m_hm_append(px, st, fr, ev):
+    a = ev["args"][0]
+    if a[0] != "ref":
+        return None
+    cur = px._read(st, a[1], a[2])
+    if not (isinstance(cur, tuple) and cur[0] == "hdrs"):
+        return None
+    new = ("hdrs", cur[1] + ((ev["args"][1], ev["args"][2], ev["uid"]),))
+
+    def do(s):
+        px._write(s, a[1], a[2], new)
+    return val(("call", ev["callee"]["path"], (), ev["uid"]), do=do)
+
+
+@model("Entity::add_headers", reason="the entity appends its own headers: recorded as one opaque ENTITY entry")
+def m_add_headers(px, st, fr, ev):
+    a = ev["args"][1]
+    if a[0] != "ref":
+        return None
+    cur = px._read(st, a[1], a[2])
+    if not (isinstance(cur, tuple) and cur[0] == "hdrs"):
+        return None
+    ent = deref_val(px, st, ev["args"][0], depth=1)
+    new = ("hdrs", cur[1] + ((("ENTITY",), ent, ev["uid"]),))
+
+    def do(s):
+        px._write(s, a[1], a[2], new)
+    return val(UNIT, do=do)
